@@ -1,2 +1,3 @@
 pub mod addr;
+pub mod codec;
 pub mod sighash;
